@@ -79,6 +79,16 @@ pub fn pool_strategy() -> impl Strategy<Value = Vec<String>> {
             }
             pool
         }),
+        // names an implementation might pick for its own temporaries next to an entry "a"
+        1 => (0usize..4).prop_map(|v| {
+            let all = ["a", "a.part", "a.tmp", "a~", "a.bak", ".a.swp", "a.lock", "a.new", "a.old", "a.partial"];
+            let mut pool = vec!["a".to_string()];
+            for i in 0..4 {
+                pool.push(all[1 + (v * 2 + i * 3) % (all.len() - 1)].to_string());
+            }
+            pool.dedup();
+            pool
+        }),
         // NARROW: two names, so that the universe can be 7 levels deep
         1 => (0usize..6, any::<u16>()).prop_map(|(g, i)| {
             let grp = NAME_GROUPS[g];
@@ -447,6 +457,11 @@ pub fn resolve_kind(kind: usize, raw: &RawOp, t: &Tree, ctx: &Ctx, profile: Prof
                 1 => TimeField::Modified,
                 _ => TimeField::Accessed,
             };
+            // the unrestricted profile (C13) also sets times at the edges of the representable range
+            if !typed && raw.mode2 % 8 == 5 {
+                let secs = [i64::MAX, i64::MAX - 1, i64::MIN + 1, 253_402_300_800, -62_135_596_800, (1i64 << 33) - 1, u32::MAX as i64 + 1, 0][(raw.c % 8) as usize];
+                return Op::SetTime(p, field, secs, [0u32, 999_999_999, 1, 500_000_000][(raw.d % 4) as usize]);
+            }
             Op::SetTime(p, field, 1_000_000 + raw.c as i64 * 977, (raw.d as u32) * 15_000)
         }
     }
